@@ -342,11 +342,15 @@ def run_history(ctx, seed_case):
                                     f"{sh.dim} {which} {foreign}", case)
         elif op == "foreign_label":
             # << does not validate; the statement only requires that *reading* in the foreign unit never yields a number
-            q << Unit[foreign]   # pylint: disable=pointless-statement
-            sh.display = foreign
-            changed_display = True
-            ctx.count("display_unit_changes")
-            expect_conversion_error(ctx, lambda: q.unit_value, f"unit_value of a {sh.dim} labelled {foreign}", case)
+            try:
+                q << Unit[foreign]   # pylint: disable=pointless-statement
+            except UnitConversionError:
+                ctx.count("foreign_labels_rejected")      # a library that validates the label: equally fine, nothing was relabelled
+            else:
+                sh.display = foreign
+                changed_display = True
+                ctx.count("display_unit_changes")
+                expect_conversion_error(ctx, lambda: q.unit_value, f"unit_value of a {sh.dim} labelled {foreign}", case)
         elif op == "foreign_unitcall":
             # Unit.X(q) / PreferredUnits.slot(q) with q of another dimension: whatever comes back must not read as a number
             via_slot = rng.random() < 0.4
